@@ -12,8 +12,8 @@ static struct cs cs[MAXCS];
 static struct gp gp[MAXGP];
 static int ncs, ngp, noverlap;
 
-static void orc_reset_cb(void);
-void orc_reset(void) { ncs = ngp = noverlap = 0; orc_reset_cb(); }
+/* every run is a fresh process forked from the zygote: state starts zeroed */
+void orc_reset(void) { ncs = ngp = noverlap = 0; }
 
 int orc_cs_begin(int who)
 {
@@ -142,4 +142,97 @@ void orc_cb_final_check(const char *what)
 int orc_ncb(void) { return ncb; }
 int orc_cb_count(int cb) { return cbs[cb].count; }
 
-static void orc_reset_cb(void) { ncb = 0; nbar = 0; }
+
+/* ---------------------------------------------------------------- defer_rcu */
+#define MAXDT 8
+#define MAXDC 1024
+struct dcall { int fn; void *arg; int gp; uint64_t queued, invoked; };
+static struct dcall dc[MAXDT][MAXDC];
+static int dn[MAXDT], dnext[MAXDT];
+static struct { uint64_t seq; } dmarks[512];
+static int ndmarks;
+
+void orc_defer_queue(int t, int fn, void *arg)
+{
+	struct dcall *c;
+	if (t < 0 || t >= MAXDT || dn[t] >= MAXDC)
+		usim_bug("oracle: too many deferred calls");
+	c = &dc[t][dn[t]];
+	usim_trace("defer_rcu(fn%d, %p) #%d of thread %d", fn, arg, dn[t], t);
+	c->fn = fn;
+	c->arg = arg;
+	c->queued = 0;
+	c->invoked = 0;
+	c->gp = orc_gp_call(t);
+	dn[t]++;
+}
+
+void orc_defer_queued(int t)
+{
+	dc[t][dn[t] - 1].queued = usim_seq();
+}
+
+void orc_defer_invoked(int fn, void *arg)
+{
+	int t, best = -1;
+	usim_trace("deferred function fn%d(%p) invoked", fn, arg);
+	/* function index = thread * 8 + k: the queue is identified by the function */
+	t = fn / 8;
+	if (t >= 0 && t < MAXDT && dnext[t] < dn[t] &&
+	    dc[t][dnext[t]].fn == fn && dc[t][dnext[t]].arg == arg)
+		best = t;
+	if (best < 0) {
+		/* diagnose: was it queued at all, out of order, or never? */
+		for (t = 0; t < MAXDT; t++) {
+			int i;
+			for (i = dnext[t]; i < dn[t]; i++)
+				if (dc[t][i].fn == fn && dc[t][i].arg == arg)
+					usim_fail("defer-order",
+						"deferred call (fn%d, %p) of thread %d invoked out of order: it was queued as #%d but #%d (fn%d, %p) has not run yet",
+						fn, arg, t, i, dnext[t], dc[t][dnext[t]].fn, dc[t][dnext[t]].arg);
+			for (i = 0; i < dnext[t]; i++)
+				if (dc[t][i].fn == fn && dc[t][i].arg == arg)
+					usim_fail("defer-twice", "deferred call (fn%d, %p) of thread %d invoked again", fn, arg, t);
+		}
+		usim_fail("defer-wrong-args", "a deferred function was invoked as (fn%d, %p), which no thread queued", fn, arg);
+	}
+	dc[best][dnext[best]].invoked = usim_seq();
+	orc_gp_done(dc[best][dnext[best]].gp, "deferred call");
+	dnext[best]++;
+}
+
+int orc_defer_pending(int t) { return dn[t] - dnext[t]; }
+
+int orc_defer_mark(int t)
+{
+	(void) t;
+	if (ndmarks >= 512)
+		usim_bug("oracle: too many defer marks");
+	dmarks[ndmarks].seq = usim_seq();
+	return ndmarks++;
+}
+
+void orc_defer_check_thread(int t, int mark, const char *what)
+{
+	int i;
+	for (i = 0; i < dn[t]; i++)
+		if (dc[t][i].queued && dc[t][i].queued < dmarks[mark].seq && !dc[t][i].invoked)
+			usim_fail("defer-barrier-missed",
+				"%s returned although call #%d (fn%d, %p) queued by thread %d before it has not run",
+				what, i, dc[t][i].fn, dc[t][i].arg, t);
+}
+
+void orc_defer_check_all(int mark, const char *what)
+{
+	int t;
+	for (t = 0; t < MAXDT; t++)
+		orc_defer_check_thread(t, mark, what);
+}
+
+int orc_defer_total(void)
+{
+	int t, n = 0;
+	for (t = 0; t < MAXDT; t++)
+		n += dn[t];
+	return n;
+}
